@@ -145,8 +145,12 @@ func flowsToReturn(v ssa.Value, depth int, seen map[ssa.Value]bool) bool {
 				}
 			}
 			if fv, ok := x.Addr.(*ssa.FreeVar); ok {
-				_ = fv
-				return true // assignment to the enclosing function's named result from a deferred closure
+				// assignment to a variable of the enclosing function from a closure: it surfaces only
+				// if that variable is one the enclosing function returns (a named result reloaded
+				// after the deferred calls, or a local that is returned)
+				if capturedIsReturned(fv) {
+					return true
+				}
 			}
 			// varargs slice element: []interface{}{…, err} passed to fmt.Errorf
 			if ia, ok := x.Addr.(*ssa.IndexAddr); ok {
@@ -453,3 +457,137 @@ func sortedKeys(m map[string]ssa.Value) []string {
 var _ = fmt.Sprintf
 
 func constantInt(i int64) constant.Value { return constant.MakeInt64(i) }
+
+// capturedIsReturned: the free variable of a closure is bound (in every
+// MakeClosure of the parent) to a local slot whose loads reach a Return of the parent.
+func capturedIsReturned(fv *ssa.FreeVar) bool {
+	clo := fv.Parent()
+	parent := clo.Parent()
+	if parent == nil {
+		return false
+	}
+	idx := -1
+	for i, f := range clo.FreeVars {
+		if f == fv {
+			idx = i
+		}
+	}
+	if idx < 0 {
+		return false
+	}
+	found := false
+	core.Instrs(parent, func(_ *ssa.BasicBlock, in ssa.Instruction) {
+		mc, ok := in.(*ssa.MakeClosure)
+		if !ok || mc.Fn != ssa.Value(clo) || idx >= len(mc.Bindings) {
+			return
+		}
+		al, ok := mc.Bindings[idx].(*ssa.Alloc)
+		if !ok {
+			return
+		}
+		for _, r := range *al.Referrers() {
+			u, ok := r.(*ssa.UnOp)
+			if !ok || u.Op != token.MUL {
+				continue
+			}
+			for _, r2 := range *u.Referrers() {
+				ret, isRet := r2.(*ssa.Return)
+				if !isRet {
+					continue
+				}
+				// a deferred closure's assignment is only seen by a load that happens after
+				// the deferred calls ran, i.e. after `rundefers` in the return block
+				if _, isDefer := closureIsDeferred(parent, clo); isDefer {
+					afterDefers := false
+					for _, bi := range ret.Block().Instrs {
+						if _, isRun := bi.(*ssa.RunDefers); isRun {
+							afterDefers = true
+						}
+						if bi == ssa.Instruction(u) && afterDefers {
+							found = true
+						}
+					}
+				} else {
+					found = true
+				}
+			}
+		}
+	})
+	return found
+}
+
+func closureIsDeferred(parent, clo *ssa.Function) (*ssa.Defer, bool) {
+	var d *ssa.Defer
+	core.Instrs(parent, func(_ *ssa.BasicBlock, in ssa.Instruction) {
+		if df, ok := in.(*ssa.Defer); ok {
+			if mc, ok := df.Call.Value.(*ssa.MakeClosure); ok && mc.Fn == ssa.Value(clo) {
+				d = df
+			}
+		}
+	})
+	return d, d != nil
+}
+
+// freshResult: every value function f can return as result idx is an object
+// allocated during that call (an Alloc in f, or the result of a callee for
+// which the same holds, ≤ 3 levels), or nil. Returns a description of the
+// first offending source otherwise.
+func freshResult(f *ssa.Function, idx int, depth int) (bool, string) {
+	if f == nil || len(f.Blocks) == 0 {
+		return false, "no body"
+	}
+	if depth > 3 {
+		return false, "call depth"
+	}
+	for _, ret := range core.Returns(f) {
+		ops := core.RetOperands(ret)
+		if idx >= len(ops) {
+			return false, "arity"
+		}
+		for _, leaf := range core.PhiLeaves(ops[idx], ret.Block()) {
+			v := core.Strip(leaf.V)
+			switch x := v.(type) {
+			case *ssa.Alloc:
+				if !x.Heap {
+					return false, "stack slot"
+				}
+			case *ssa.Const:
+				if x.Value != nil {
+					return false, "constant"
+				}
+			case *ssa.Call:
+				cal := core.StaticCallee(x)
+				if cal == nil {
+					return false, "dynamic call " + core.CalleeName(x)
+				}
+				if ok, why := freshResult(cal, 0, depth+1); !ok {
+					return false, core.FnName(cal) + ": " + why
+				}
+			case *ssa.Extract:
+				if c, ok := x.Tuple.(*ssa.Call); ok {
+					cal := core.StaticCallee(c)
+					if cal == nil {
+						return false, "dynamic call"
+					}
+					if ok, why := freshResult(cal, x.Index, depth+1); !ok {
+						return false, core.FnName(cal) + ": " + why
+					}
+				} else {
+					return false, "value taken from " + fmt.Sprintf("%T", x.Tuple)
+				}
+			case *ssa.UnOp:
+				// a load: from a package-level variable, a map, a field …
+				if g, ok := x.X.(*ssa.Global); ok {
+					return false, "package-level variable " + g.Name()
+				}
+				if _, ok := x.X.(*ssa.Alloc); ok {
+					continue // a struct value built in a local and returned by value: a copy per call
+				}
+				return false, "loaded from existing storage"
+			default:
+				return false, fmt.Sprintf("taken from %T", v)
+			}
+		}
+	}
+	return true, ""
+}
